@@ -20,4 +20,35 @@ CLAIMED = {
     },
 }
 
+CLAIMED.update({
+    'C14': {
+        'text': 'For every push sequence and every capacity k >= 0 (induction over pushes): each CFG path of HeapDict.push, interpreted '
+                'over abstract multiset transformers with a case split on |queue|-k, keeps "queue = the min(k,n) largest items pushed"; '
+                'get_result is a fresh, descending, non-mutating snapshot; both searches build the heap with size=n_designs, push and read '
+                'one key, search_results preserves the snapshot order, and both __lt__ are exactly score < score on every path.',
+        'design_ref': 'DESIGN.md section 4, C14',
+        'note': 'Not decided: behaviour for items whose < is not a strict weak order (e.g. NaN in the score tuple); the run-time order of '
+                'the returned scores is implied by, not observed in, the analysis.' + TB,
+        'technique': 'abstract interpretation (multiset transformers) on enumerated CFG paths + effect/provenance rules',
+    },
+    'C16': {
+        'text': 'Complete for the class algebra: the set expressions of GeoAssignments.__init__ are evaluated as Boolean functions on all 8 '
+                'eligibility rows and compared with the documented row table (partition of the 7 legal rows). Structural for validation and '
+                'selection: six rejecting ValueError guards dominate acceptance, IDs are canonicalised to str before uniqueness, subset '
+                'narrowing precedes positional relabelling, index mode without subset raises, subset tested with `is None`.',
+        'design_ref': 'DESIGN.md section 4, C16',
+        'note': 'Not decided: what pandas coerces as a 0/1 column (bool/float dtypes); behaviour of .loc for IDs missing from the table.' + TB,
+        'technique': 'exact truth-table evaluation of set algebra + dominator analysis of guards',
+    },
+    'C17': {
+        'text': 'Table agreement between every dataclass field, its validator call (operator, bound value and int/float-ness, pair order), '
+                'optionality, default and the documented domain; path-condition analysis proving every accepting path of the three helpers '
+                'positively asserted type test, comparisons in the right operand order and integrality; exception-effect analysis showing only '
+                'ValueError can escape (table keys, int() conversions only on finitely bounded values).',
+        'design_ref': 'DESIGN.md section 4, C17',
+        'note': 'Not decided: floating-point neighbours of bounds (the comparison itself is CPython\'s); bool counts as int.' + TB,
+        'technique': 'spec-table extraction + path-condition (literal) analysis + exception-effect analysis',
+    },
+})
+
 NOT_APPLICABLE = {}
